@@ -34,11 +34,18 @@ def micro_cases(ctx):
             for pos in range(npos):
                 for k in range(-1, 12):
                     cases.append('treeins %s %d %d %d' % (c, n, k, pos))
+        if c == 'N':                               # real continuous Node::Remove with a remover that may throw (shift-back)
+            for n in range(1, 5):
+                for index in range(n):
+                    for k in (-1, 0, 1):
+                        cases.append('noderemove N %d %d %d' % (n, k, index))
         for k in range(-1, 5):
             cases.append('copyexec %s 1 %d' % (c, k))
             cases.append('moveexec %s 1 %d' % (c, k))
             for cv in 'NCT':
                 cases.append('kvreloc %s 1 %d %s' % (c, k, cv))
+                cases.append('kvreplace %s 1 %d %s' % (c, k, cv))
+                cases.append('kvreprel %s 1 %d %s' % (c, k, cv))
             for mv in 'mc':
                 cases.append('kvcreate %s 1 %d %s' % (c, k, mv))
     return cases
